@@ -496,7 +496,12 @@ func genHTTPOps(t *rapid.T, c *c08Case, genKeys func() []int) {
 			if len(c2s) > 30 {
 				continue
 			}
-			c.Updates = append(c.Updates, genKeys())
+			ks := genKeys()
+			if len(ks) == 0 && c.Flow != "writer" {
+				// the streamer / iterator endpoints ignore a request without keys
+				ks = []int{0}
+			}
+			c.Updates = append(c.Updates, ks)
 			sent++
 			c.Ops = append(c.Ops, c08Op{K: "req"})
 			c2s = append(c2s, "req")
